@@ -254,6 +254,13 @@ func vLogReset(l *log.Log, lastIndex uint64) error {
 	// the real Reset unlinks every segment, then creates the new one: in between the directory holds no segment at
 	// all, which openSegments turns into an empty log at index 0 (crash-outcome set of DESIGN.md §3.6, checked at the
 	// log level by C14)
+	// (the segments are unlinked oldest first: after each one the directory holds the remaining suffix)
+	for _, b := range a.bounds {
+		if b > a.prev {
+			a.prev = b
+			vCrashPoint("log.reset.partial")
+		}
+	}
 	a.base, a.prev, a.ents, a.bounds, a.flushed = 0, 0, nil, nil, 0
 	vCrashPoint("log.reset.mid")
 	a.base, a.prev, a.ents, a.bounds = lastIndex, lastIndex, nil, nil
